@@ -16,9 +16,12 @@ EXPLANATION = (
     "the line of the opening quotes), and in every line loop the line counter is incremented before anything can skip "
     "the line. P5: the cell split pattern, as a regex AST, is 'pipe not preceded by a backslash', the row is split "
     "without its outer pipes, and exactly the escaped pipe is unescaped. P6: every builder that hands the pending tags to a "
-    "model element rebinds self.tags to a fresh list afterwards (tags belong to exactly the statement they precede).")
+    "model element rebinds self.tags to a fresh list afterwards (tags belong to exactly the statement they precede). P7: action_steps / action_multiline_text "
+    "evaluated on concrete lines (constant folding): a doc-string opened by one delimiter kind and containing lines of "
+    "the other kind ends only at its own delimiter, and its text is the lines in between minus the opening indent. P8: escape_cell (renderer) composed with action_table's row split, both "
+    "constant-folded on rows whose cells contain pipes: the re-parsed cells equal the original ones.")
 NOT_DECIDED = ("text fidelity of names, descriptions, tags, cells and doc-string dedent (string contents, e.g. a '#' "
-               "inside a tag name); parse_file decoding; the renderers in model_describe; full trace equivalence with a "
+               "inside a tag name); parse_file decoding; the renderers in model_describe beyond pipe escaping (P8); full trace equivalence with a "
                "reference grammar machine (P4 of the design) was not built - the machine exploration decides P2 and, "
                "in C05, the error discipline")
 
@@ -32,6 +35,8 @@ def t_struct(chk, ix):
     rules_parser.check_line_numbers(chk, ix)
     rules_parser.check_cell_splitter(chk, ix)
     rules_parser.check_tags_consumed(chk, ix, "P6")
+    rules_parser.check_docstring_protocol(chk, ix)
+    rules_parser.check_cell_roundtrip(chk, ix)
 
 
 def run(chk, ix, tier):
@@ -42,3 +47,5 @@ def run(chk, ix, tier):
     chk.require_instances("P3", 12)
     chk.require_instances("P5", 3)
     chk.require_instances("P6", 5)
+    chk.require_instances("P7", 2)
+    chk.require_instances("P8", 6)
